@@ -54,6 +54,10 @@ fn check_batch(b: &Batch) -> Result<(), (usize, String)> {
         let a = addr_of(b, i);
         if b.update {
             lines.push(bits::es(17, 5, a, bits::me_velocity(&PREV)).hex());
+            if b.hi % 3 == 0 {
+                // a low barometric altitude (1000 ft): a negative GNSS difference larger than it must not matter
+                lines.push(bits::df4(a, bits::ac13_q1(80), 0).hex());
+            }
         }
         lines.push(bits::es(17, b.ca, a, bits::me_velocity(v)).hex());
     }
